@@ -300,7 +300,7 @@ def run_proof(rep, tier, which=("toposort", "backward_pass")):
             st, m, backend, secs = check_sat(hyps + [z3.Not(goal)], budget, want_model=False, both=(tier == "thorough"))
             maxsecs = max(maxsecs, secs)
             ok = st == "unsat"
-            rep.obligation(f"{FN}:{name}", ok, backend, secs, "E1a", sample=(f"{FN}:{name}: {len(hyps)} hypotheses |- {str(z3.simplify(goal))[:300]}" if len(rep.samples) < 4 else None))
+            rep.obligation(f"{FN}:{name}", ok, backend, secs, "E1a", trivial=z3.is_true(z3.simplify(goal)), sample=(f"{FN}:{name}: {len(hyps)} hypotheses |- {str(z3.simplify(goal))[:300]}" if len(rep.samples) < 4 else None))
             if not ok:
                 failed.append((name, st))
         rep.extra[f"{key}_vcs"] = dict(generated=len(obl), max_solver_seconds=round(maxsecs, 2), budget_ms=budget)
